@@ -82,6 +82,7 @@ SOLVENTS = ['Water', 'Ethanol', 'Methanol', 'Toluene']
 METHODS = ['pseudo equilibrium', 'shgo', 'differential evolution']
 MTAG = {'pseudo equilibrium': 'pseudo-equilibrium', 'shgo': 'shgo', 'differential evolution': 'differential-evolution'}
 DEF_TOLT, DEF_TOLZ = 1e-3, 1e-5
+SLE_X_TOL = 1e-3      # relative; see the measurement note at its use
 # largest relative activity mismatch the listed optimiser-quality entries cover (about 1.35 x the largest seen over
 # ~35 quick and 5 thorough runs: shgo binary 0.22, shgo >=3 chemicals 0.55, differential evolution >=3 chemicals 0.31)
 RESIDUAL_CAP = {('shgo', 'binary'): 0.40,     # shgo with >= 3 chemicals: no cap — the relative mismatch of a trace chemical
@@ -904,6 +905,34 @@ def run_sle(case, model_in, outs, failures, tags):
                     failures.append({'signature': 'sle:computed-solubility-is-not-the-eutectic-one', 'op_index': len(model_in),
                                      'what': f'ideal package, solute {solute}, T={T}: _solve_x returned {sxs[-1]}, '
                                              f'chemicals.solubility_eutectic with gamma=1 gives {ref}'})
+            if th == 0 and sxs and len(idx) > 1 and si in idx and 0 < l1[si] < present:
+                # non-ideal package: the solubility it computed must be the eutectic solubility at the activity coefficient
+                # OF THE NAMED SOLUTE in the liquid the call leaves behind (the fixed point _solve_x iterates to), recomputed
+                # here through a fresh thermo.Gamma
+                from chemicals import solubility_eutectic
+                c_ = chemicals.tuple[si]
+                xl_ = l1[idx] / l1[idx].sum()
+                gam_ = float(STH[0].Gamma([chemicals.tuple[i] for i in idx])(xl_, T)[idx.index(si)])
+                ref = solubility_eutectic(T, c_.Tm, c_.Hfus, c_.Cn.l(T), c_.Cn.s(T), gam_)
+                dev = abs(ref - sxs[-1]) / max(abs(ref), abs(sxs[-1]), 1e-300)
+                _stat('sledev', solute, T, dev, ref, sxs[-1])
+                # did the iteration (flx.aitken, 100 steps at most, an external solver) reach a fixed point of the map the
+                # CODE iterates?  one more evaluation of the real _x_iter at the returned x (it re-applies the same update)
+                try:
+                    own = float(sle._x_iter(sxs[-1], T, c_.Tm, c_.Hfus, c_.Cn.l(T), c_.Cn.s(T)))
+                    own_dev = abs(own - sxs[-1]) / max(abs(own), abs(sxs[-1]), 1e-300)
+                except Exception:
+                    own_dev = 0.
+                if own_dev > SLE_X_TOL:
+                    tags.append('sle:solubility-iteration-not-converged(skipped)')     # e.g. glucose in toluene near 390 K
+                    dev = 0.
+                else:
+                    tags.append('sle:dortmund-solubility-recomputed')
+                if dev > SLE_X_TOL:
+                    failures.append({'signature': 'sle:computed-solubility-is-not-the-eutectic-one', 'op_index': len(model_in),
+                                     'what': f'solute {solute}, T={T}, chemicals {[chemicals.IDs[i] for i in nzs]}: _solve_x returned '
+                                             f'{sxs[-1]}; the eutectic solubility with the activity coefficient of {solute} '
+                                             f'({gam_:.6g}) in the liquid the call left is {ref}'})
         model_in.append(line % ('-' if (given is not None or x_used is None) else fbits(x_used)))
         outs.append(f'pure={int(is_pure)} liq={fl(l1)} sol={fl(s1)}')
         op_index = len(model_in) - 1
@@ -912,6 +941,10 @@ def run_sle(case, model_in, outs, failures, tags):
         if given is None and not is_pure and last_computed is not None and last_computed[0] == (solute, tuple(nzs)) \
                 and last_computed[1] != tuple(np.delete(l0, si)):
             tags.append('sle:computed-again-on-the-same-chemicals-after-a-solvent-edit'
+                        + (':partly-dissolved' if 0 < l1[si] < present else ''))
+        if given is None and not is_pure and last_computed is not None and last_computed[0][1] == tuple(nzs) \
+                and last_computed[0][0] != solute and prev_kind == 'computed':
+            tags.append('sle:computed-for-another-solute-on-the-same-chemicals'
                         + (':partly-dissolved' if 0 < l1[si] < present else ''))
         if given is None and not is_pure: last_computed = ((solute, tuple(nzs)), tuple(np.delete(l0, si)))
         # --- oracle
@@ -1163,7 +1196,7 @@ def gen_sle(rng):
     if where < 0.4: liq[ix(solute)] = amt
     elif where < 0.8: sol[ix(solute)] = amt
     else: liq[ix(solute)] = amt; sol[ix(solute)] = rflow(rng)
-    if rng.random() < 0.25:
+    if rng.random() < 0.4:
         other = rng.choice([x for x in SOLUTES if x != solute])
         (sol if rng.random() < 0.6 else liq)[ix(other)] = rflow(rng)
     ftok = lambda d: ','.join(f'{i}:{v!r}' for i, v in sorted(d.items())) or '-'
@@ -1176,6 +1209,13 @@ def gen_sle(rng):
         if c > 0:
             present_solv = [x for x in SOLVENTS if liq.get(ix(x), 0) > 0]
             sc = rng.random()
+            present_solutes = [x for x in SOLUTES if liq.get(ix(x), 0) > 0 or sol.get(ix(x), 0) > 0]
+            if len(present_solutes) >= 2 and rng.random() < 0.3:
+                # the next call names ANOTHER solute that is present; nothing on the stream changes, so the solver keeps
+                # the set-up of the previous call
+                solute = rng.choice([x for x in present_solutes if x != solute])
+                keep = True
+                sc = 2.0
             if sc < 0.30 and present_solv:
                 # the amount of a solvent that is already there is edited (less or more of it), nothing else changes:
                 # the set of chemicals stays the one the solver was set up for
@@ -1183,7 +1223,7 @@ def gen_sle(rng):
                 liq[ix(x)] = round(liq[ix(x)] * rng.choice([0.1, 0.25, 0.5, 2, 4]), 4)
                 ops.append(f'sle set liq={ix(x)}:{liq[ix(x)]!r}')
                 keep = True
-            else:
+            elif sc < 1.5:
                 r = rng.random()
                 if r < 0.25:
                     x = rng.choice(SOLVENTS); liq[ix(x)] = rflow(rng); ops.append(f'sle set liq={ix(x)}:{liq[ix(x)]!r}')
@@ -1281,6 +1321,9 @@ def corpus():
         Case(['lle new method=1 tolT=- tolZ=- flows=0:14.0,7:6.0,8:2.0', 'lle call T=310.0 top=Toluene uc=1 k=1',
               'lle set flows=0:14.0,7:6.0,8:8.0', 'lle call T=310.0 top=Toluene uc=1 k=1 upd=0',
               'lle set flows=0:14.0,7:6.0,8:2.0', 'lle call T=310.0 top=Toluene uc=1 k=1'], {'kind': 'lle'}),
+        # two solutes on one stream, asked for one after the other (the activity coefficient must be the named solute's)
+        Case(['sle new thermo=0 liq=1:9.0,0:1.5 sol=7:5.0,5:4.0', 'sle call solute=BenzoicAcid T=300.0 given=-',
+              'sle call solute=Naphthalene T=300.0 given=-', 'sle call solute=BenzoicAcid T=310.0 given=-'], {'kind': 'sle'}),
         # SLE: docstring cases
         Case(['sle new thermo=0 liq=2:10.0,4:30.0 sol=-', 'sle call solute=Tetradecanol T=300.0 given=-',
               'sle call solute=Tetradecanol T=300.0 given=0.5'], {'kind': 'sle'}),
